@@ -1594,12 +1594,16 @@ class Summarizer(Evaluator):
         self.local_defs = {}
         self.carried_lists = set()
         self._tables = {}
+        self.loaded_names = None
 
     def summarize(self, func, env=None):
         st = State(env=dict(env or {}))
         # locals: names stored somewhere in the function (not parameters,
         # not declared global)
         self.locals_, self.params_ = _locals_of(func)
+        self.loaded_names = set(x.id for x in ast.walk(func)
+                                if isinstance(x, ast.Name)
+                                and isinstance(x.ctx, ast.Load))
         if self.ctx is None:
             self.ctx = context_of(func)
         self.inline_stack = [getattr(getattr(func, '_ctx_from', func),
@@ -1918,6 +1922,11 @@ class Summarizer(Evaluator):
             return None
         loc, par = _locals_of(target)
         self.locals_, self.params_ = loc | set(extra), par
+        saved_loaded = self.loaded_names
+        self.loaded_names = set(x.id for x in ast.walk(target)
+                                if isinstance(x, ast.Name)
+                                and isinstance(x.ctx, ast.Load)) | (
+            (saved_loaded or set()) if closure is not None else set())
         if closure is not None:
             # a nested function sees its caller's locals
             self.locals_ = self.locals_ | (set(saved[0]) - par)
@@ -1931,6 +1940,7 @@ class Summarizer(Evaluator):
         finally:
             self.inline_stack.pop()
             self.locals_, self.params_ = saved
+            self.loaded_names = saved_loaded
         if qual not in self.inlined:
             self.inlined.append(qual)
         fixed = []
@@ -2210,14 +2220,22 @@ class Summarizer(Evaluator):
             return [(st, None)]
         val = self.ev(n.value, st)
         vk = key(val)
-        if vk[0] == 'call' and all(isinstance(t, (ast.Name, ast.Tuple,
-                                                  ast.List))
-                                   for t in n.targets) and not isinstance(
-                n.value, ast.Name):
-            # if nothing ever reads the targets, the call was made for its
-            # effect: refcmp.signature turns it into one (like the same call
-            # written as an expression statement)
-            st.trace.append(('assigned-call', vk, n.lineno))
+        if vk[0] == 'call' and isinstance(n.value, ast.Call):
+            names = []
+            plain = True
+            for t in n.targets:
+                for x in ast.walk(t):
+                    if isinstance(x, ast.Name):
+                        names.append(x.id)
+                    elif not isinstance(x, (ast.Tuple, ast.List, ast.Store,
+                                            ast.Starred)):
+                        plain = False
+            if plain and names and self.loaded_names is not None \
+                    and not any(nm in self.loaded_names for nm in names):
+                # the names are never read anywhere in the function: the
+                # call is there for its effect, like the same call written
+                # as an expression statement
+                st.trace.append(('expr', vk, n.lineno))
         for t in n.targets:
             self.assign(t, val, st, n.lineno)
         return [(st, None)]
@@ -2615,7 +2633,33 @@ class Summarizer(Evaluator):
         appenders = appenders | dictb
         self.depth += 1
         try:
+            saved_counters = (self.ph, self.loop_id)
+            heap0 = dict(body_st.heap)
             outs = self.block(body, body_st)
+            # a local that enters the loop as <expr> and is re-bound to the
+            # same <expr> at the end of every iteration (`nxt = self.peek()`
+            # before the loop and last in its body) is that expression
+            # evaluated afresh, not a carried unknown: evaluate the body
+            # again with it bound so
+            stable = {}
+            for name, cv in body_st0.items():
+                if not (isinstance(cv, tuple) and cv and cv[0] == 'carried'):
+                    continue
+                pv = pre.env.get(name)
+                if pv is None or key(pv)[0] != 'call':
+                    continue
+                posts = [s.env.get(name) for s, o in outs
+                         if o is None or o[0] == 'continue']
+                if posts and all(q is not None and key(q) == key(pv)
+                                 for q in posts):
+                    stable[name] = pv
+            if stable:
+                self.ph, self.loop_id = saved_counters
+                body_st = State(dict(body_st0), dict(heap0), [])
+                for name, pv in stable.items():
+                    body_st.env[name] = pv
+                    body_st0[name] = pv
+                outs = self.block(body, body_st)
         finally:
             self.depth -= 1
             self.appender_stack.pop()
